@@ -32,7 +32,7 @@ PROPS["C19"] = dict(
          "legitimate message texts) - in both construction orders (systematic: all 90 ordered class pairs x no object / object above level 0 or 1 x "
          "GRPCWrap order; rapid: a third of the batches get one such pair); only the %w structure may decide the class. code case = (one of the 17 gRPC codes, message): for a non-OK code exactly one distinct class "
          "k has Is(status.Error(c,msg), k) and FromGRPCError is non-nil (OK: status.Error is nil, nothing asserted). "
-         "Exhaustive: 10 classes x every list over 8 text styles up to the depth in exhaustive_parts x (no embedding + every level x 3 objects), and 17 "
+         "Exhaustive: 10 classes x every list over 8 text styles up to the depth in exhaustive_parts x (no embedding + every level x 4 objects), and 17 "
          "codes x 13 messages; rapid: texts from ASCII/unicode/JSON fragments/colons/%/ESC/\"json\"/\"\\x1bjso\" pieces and "
          "arbitrary strings, nested objects whose strings may contain the complete marker (JSON escapes ESC). Excluded: the "
          "complete marker \\x1bjson in a wrap text, also when it would only arise across a concatenation boundary (then the "
@@ -40,11 +40,14 @@ PROPS["C19"] = dict(
          "ExtractObject's two-marker format (checked on the assembled message of the level, side texts included); chains that contain more than one "
          "class (GRPCStatusCode's fallback iterates a map) - therefore side branches never hold a class, an error that Is a class "
          "(syscall.Errno ...) or a gRPC status; custom error types with their own Is/As/Unwrap. "
+         "TEXTS THAT LOOK LIKE JSON: object strings and map keys (and wrap texts) also draw from an alphabet of texts that look like JSON escapes - the six-character text backslash-uXXXX for the code points json.Marshal itself writes that way (003c 003e 0026 2028 2029 001b 0000) and for others, "
+         "upper-case and truncated forms, a surrogate pair, backslash-n/t/r/b/f/slash/quote, a doubled and a lone backslash, quote characters - next to the characters < > & U+2028 U+2029 and HTML fragments themselves: in a Go string the backslash is an ordinary character, so the object must come back unchanged "
+         "(one drawn text in ten is built from 1..5 such pieces; exhaustive: a fourth object with such texts in its string, array elements, keys and values of both maps and the nested object runs through the class x wrap list x embedding level product and the extraction-target section; classes object_string_looks_like_json_u_escape, object_map_key_looks_like_json_u_escape, ...). "
          "EXTRACTION TARGETS: a chain with an object may name a caller-owned target kind (Into): *Obj, *any, *map[string]any, one *json.RawMessage variable re-used for all stages (nil at first, or holding other content with 4 KiB of spare capacity), "
          "or a named []byte type whose UnmarshalJSON keeps a copy of the text. At every stage (result of EmbedObject, finished chain, GRPCWrap, second GRPCWrap) the object is first extracted into that target, compared with what encoding/json itself decodes "
          "from the embedded object's JSON text into a target of the same kind (re-marshalled; RawMessage/[]byte texts compared after a decode through interface{}), and then OVERWRITTEN IN PLACE by the caller (every byte of the RawMessage/[]byte, every field, element and map entry of the decoded values) - "
          "what ExtractObject filled in belongs to the caller - before the plain *Obj extraction of the stage and all later stages run; at the end the plain extraction is repeated on the result of EmbedObject, the finished chain, GRPCWrap(e) and a fresh GRPCWrap(e). "
-         "rapid: half of the chains with an object, kind drawn; exhaustive: every list up to depth 2 over 6 styles x 10 classes x embedding level x 4 objects x (no target + 6 kinds), half of the combinations at depth 2. "
+         "rapid: half of the chains with an object, kind drawn; exhaustive: every list up to depth 2 over 6 styles x 10 classes x embedding level x 5 objects x (no target + 6 kinds), half of the combinations at depth 2. "
          "RAW BYTES: error texts and object strings are Go strings, not necessarily UTF-8. Inside a case every text is valid UTF-8 and a rune U+F780..U+F7FF stands for the raw byte 0x80..0xFF (so the JSON form of the case is exact); the library gets the decoded bytes. "
          "Wrap texts, side texts, object strings / keys and code messages may hold invalid bytes (Latin-1, lone continuation bytes, truncated sequences, surrogates, overlong forms, 0xFF) and genuine U+FFFD characters "
          "(one rapid chain in six draws two thirds of its texts from such pieces, so that raw bytes in the wrapping meet U+FFFD in the object's JSON text; exhaustive: 4 raw styles, 2 raw objects in the section above, 2 raw code messages). "
